@@ -89,6 +89,22 @@ def r1(k: Kit) -> None:
                       'receiving', k.loc(fi, node),
                       g.describe_path(w) if w else None)
     rep.floor('C08.R1', 'accept sites', n, 2)
+    # no quiet way round the check: a data packet is either accepted (past
+    # the window test) or is a protocol error - it is never dropped
+    for name in ('_process_data', '_process_extended_data'):
+        fi = k.func(CH + name)
+        g = k.cfg(fi)
+        acc = [nd.id for nd, c in k.calls_named(fi, '_accept_data')]
+        w = g.path(g.entry, g.exit, blocked_nodes=acc, follow_exc=False)
+        rep.check(bool(acc) and w is None, 'C08.R1',
+                  key(fi, 'no silent drop'),
+                  'every normal return of the handler went through '
+                  '_accept_data (window tested and charged)',
+                  'the handler can return normally without accepting the '
+                  'data: the bytes are neither checked against the window '
+                  'nor charged to it, so a peer ignoring the window is not '
+                  'rejected and an honest peer loses that window for good',
+                  k.loc(fi, fi.node), g.describe_path(w) if w else None)
     # any other caller of _accept_data must be one of the two (or a
     # subclass override delegating to super)
     for fi, call in k.idx.callers_of('_accept_data', ['channel']):
@@ -600,3 +616,9 @@ def run(idx, rep, tier):
     pktsize_positive(k, 'C08.R4')
     r5(k)
     r6(k)
+    from .shared import writer_before_backlog
+    rep.rule('C08.R7', 'late redirection installs the target before the '
+             'backlog flush (same rule as C07.R7): otherwise the flush '
+             're-pauses the channel with nobody left to resume it and no '
+             'further WINDOW_ADJUST is sent')
+    writer_before_backlog(k, 'C08.R7')
